@@ -139,6 +139,27 @@ impl<'de> Deserialize<'de> for Hook {
     }
 }
 
+/// runs the nested call when it is dropped: anchored values of a failed document are dropped by the library
+/// while it tears the document's anchor table down
+#[derive(Debug)]
+struct DropHook(#[allow(dead_code)] i64);
+impl<'de> Deserialize<'de> for DropHook {
+    fn deserialize<D: Deserializer<'de>>(d: D) -> Result<Self, D::Error> {
+        Ok(DropHook(i64::deserialize(d)?))
+    }
+}
+impl Drop for DropHook {
+    fn drop(&mut self) {
+        if let Some(k) = NEST.with(|n| n.take()) {
+            let obs = match catch_unwind(AssertUnwindSafe(|| run_call(k))) {
+                Ok(o) => o,
+                Err(_) => "PANIC escaped the nested call".to_string(),
+            };
+            NEST_OBS.with(|o| *o.borrow_mut() = Some(obs));
+        }
+    }
+}
+
 #[derive(Debug, Deserialize)]
 #[allow(dead_code)]
 struct OuterShared {
@@ -183,7 +204,7 @@ pub const BASE_CALLS: [&str; 18] = [
 ];
 /// inner calls used for nesting
 pub const NEST_INNER: [usize; 8] = [0, 1, 2, 5, 6, 12, 14, 17];
-pub const OUTERS: [&str; 3] = ["outer_rc_sharing", "outer_missing_field_after_hook", "outer_alias_replay_budget"];
+pub const OUTERS: [&str; 4] = ["outer_rc_sharing", "outer_missing_field_after_hook", "outer_alias_replay_budget", "outer_teardown_of_failed_document"];
 
 pub fn n_calls() -> usize {
     BASE_CALLS.len() + OUTERS.len() * (NEST_INNER.len() + 1)
@@ -216,6 +237,7 @@ fn run_outer(outer: usize, inner: Option<usize>) -> String {
             }
         }
         1 => show(serde_saphyr::from_str::<OuterMissing>("a: [1, 2]\nh: 0\n")),
+        3 => show(serde_saphyr::from_str::<Vec<RcAnchor<DropHook>>>("- &a 1\n- nope\n").map(|v| v.len())),
         _ => {
             let mut b = serde_saphyr::Budget::default();
             b.max_nodes = 12;
